@@ -87,6 +87,34 @@ Qed.
 Lemma wf_msgs_c_app x y : wf_msgs_c (x ++ y) = wf_msgs_c x && wf_msgs_c y.
 Proof. apply forallb_app. Qed.
 
+Lemma link_msg_size os ls sbBE ad sz : chunk_size_v2 [cont_msg os ls sbBE ad sz] = link_size os ls.
+Proof.
+  rewrite chunk_size_v2_cons. unfold cont_msg. cbn [hm_data]. rewrite blen_app, !blen_enc_uint.
+  change (chunk_size_v2 []) with 0. unfold link_size. blia.
+Qed.
+
+Lemma chunk_msgs_size os ls sbBE a b pos r :
+  chunk_size_v2 (chunk_msgs os ls sbBE a b (next_link os ls pos r))
+  = chunk_size_v2 a + (if is_nil r then 0 else link_size os ls) + chunk_size_v2 b.
+Proof.
+  destruct r as [|k' r']; cbn [next_link chunk_msgs is_nil].
+  - rewrite chunk_size_v2_app. blia.
+  - rewrite !chunk_size_v2_app, link_msg_size. blia.
+Qed.
+
+Lemma wf_ochk_inv k : wf_ochk k = true ->
+  wf_msgs_c (k_a k) = true /\ wf_msgs_c (k_b k) = true /\ blen (k_gap k) < 4 /\ blen (k_ck k) = 4.
+Proof.
+  unfold wf_ochk. intros H. apply andb_true_iff in H as [H H4]. apply andb_true_iff in H as [H H3].
+  apply andb_true_iff in H as [H1 H2]. apply N.ltb_lt in H3. apply N.eqb_eq in H4. auto.
+Qed.
+
+Lemma existsb_fresh a vis : Forall (fun v => v < a) vis -> existsb (N.eqb a) vis = false.
+Proof.
+  induction 1 as [|v l Hv _ IH]; [reflexivity|]. cbn [existsb]. rewrite IH.
+  replace (a =? v) with false by (symmetry; apply N.eqb_neq; blia). reflexivity.
+Qed.
+
 Section Loop.
 Variables (file : bytes) (os ls : N) (sbBE : bool).
 Hypothesis Hfile : blen file < 9223372036854775808.
@@ -293,28 +321,6 @@ Fixpoint ochk_fuel (ks : list ochk) : nat :=
               end
   end.
 
-Lemma link_msg_size ad sz : chunk_size_v2 [cont_msg os ls sbBE ad sz] = link_size os ls.
-Proof.
-  rewrite chunk_size_v2_cons. unfold cont_msg. cbn [hm_data]. rewrite blen_app, !blen_enc_uint.
-  change (chunk_size_v2 []) with 0. unfold link_size. blia.
-Qed.
-
-Lemma chunk_msgs_size a b pos r :
-  chunk_size_v2 (chunk_msgs os ls sbBE a b (next_link os ls pos r))
-  = chunk_size_v2 a + (if is_nil r then 0 else link_size os ls) + chunk_size_v2 b.
-Proof.
-  destruct r as [|k' r']; cbn [next_link chunk_msgs is_nil].
-  - rewrite chunk_size_v2_app. blia.
-  - rewrite !chunk_size_v2_app, link_msg_size. blia.
-Qed.
-
-Lemma wf_ochk_inv k : wf_ochk k = true ->
-  wf_msgs_c (k_a k) = true /\ wf_msgs_c (k_b k) = true /\ blen (k_gap k) < 4 /\ blen (k_ck k) = 4.
-Proof.
-  unfold wf_ochk. intros H. apply andb_true_iff in H as [H H4]. apply andb_true_iff in H as [H H3].
-  apply andb_true_iff in H as [H1 H2]. apply N.ltb_lt in H3. apply N.eqb_eq in H4. auto.
-Qed.
-
 (* what the file holds where a chain of continuation chunks starts *)
 Lemma ochk_head pos k r :
   file_at file pos (build_ochks os ls sbBE pos (k :: r)) -> wf_ochk k = true ->
@@ -339,12 +345,6 @@ Proof.
   repeat split; auto; try blia.
   - apply fa_app_l in H1. exact H1.
   - apply fa_app_r in H1. apply fa_app_l in H1. exact H1.
-Qed.
-
-Lemma existsb_fresh a vis : Forall (fun v => v < a) vis -> existsb (N.eqb a) vis = false.
-Proof.
-  induction 1 as [|v l Hv _ IH]; [reflexivity|]. cbn [existsb]. rewrite IH.
-  replace (a =? v) with false by (symmetry; apply N.eqb_neq; blia). reflexivity.
 Qed.
 
 Lemma ochks_loop : forall r k pos vis,
